@@ -22,14 +22,106 @@ pub const OPW: usize = 5; // ints per op: kind, p1..p4
 
 /// the answer of one request from a pristine state: guarded hooks reset the known process-wide state, and a
 /// brand-new thread gives pristine thread-local state (a memo added as a thread_local is invisible to the hooks)
-fn pristine_answer(op: &[i64]) -> String {
+/// The answer of one request from a pristine state (memo emptied through the hooks, brand-new thread). `Err(limit)` if it
+/// does not return within the stall limit: state the hooks do not know about may keep it waiting for ever.
+fn pristine_answer(op: &[i64]) -> Result<String, std::time::Duration> {
   clean_state();
   let o = op.to_vec();
+  let (tx, rx) = std::sync::mpsc::channel::<String>();
   std::thread::spawn(move || {
-    answer(&o)
-  })
-  .join()
-  .unwrap_or_else(|_| "REFUSED".to_string())
+    let _ = tx.send(answer(&o));
+  });
+  let limit = stall_limit(std::time::Duration::from_secs(0));
+  match rx.recv_timeout(limit) {
+    Ok(a) => Ok(a),
+    Err(std::sync::mpsc::RecvTimeoutError::Disconnected) => Ok("REFUSED".to_string()),
+    Err(std::sync::mpsc::RecvTimeoutError::Timeout) => Err(limit),
+  }
+}
+
+enum Fresh {
+  Answered(Vec<String>),
+  Failed,
+  TimedOut,
+}
+
+/// A request list in a fresh process (one answer per line), with a deadline.
+fn run_fresh(flat_ops: &[i64], limit: std::time::Duration) -> Fresh {
+  let exe = match std::env::current_exe() {
+    Ok(e) => e,
+    Err(_) => return Fresh::Failed,
+  };
+  let arg = flat_ops.iter().map(|x| x.to_string()).collect::<Vec<_>>().join(",");
+  let dir = std::path::PathBuf::from(verif_dir()).join("harness").join("target").join("work");
+  let _ = std::fs::create_dir_all(&dir);
+  let out_path = dir.join(format!("vcheck-c10-{}-{:x}.out", std::process::id(), hash_str(&arg, &[])));
+  let file = match std::fs::File::create(&out_path) {
+    Ok(f) => f,
+    Err(_) => return Fresh::Failed,
+  };
+  let mut child = match std::process::Command::new(&exe).arg("C10").arg("--aux").arg("history").arg(arg).stdout(std::process::Stdio::from(file)).stderr(std::process::Stdio::null()).spawn() {
+    Ok(c) => c,
+    Err(_) => return Fresh::Failed,
+  };
+  let t0 = std::time::Instant::now();
+  let res = loop {
+    match child.try_wait() {
+      Ok(Some(st)) => {
+        if !st.success() {
+          break Fresh::Failed;
+        }
+        break match std::fs::read_to_string(&out_path) {
+          Ok(buf) => Fresh::Answered(buf.lines().map(|l| l.to_string()).collect()),
+          Err(_) => Fresh::Failed,
+        };
+      }
+      Ok(None) => {
+        if t0.elapsed() > limit {
+          let _ = child.kill();
+          let _ = child.wait();
+          break Fresh::TimedOut;
+        }
+        std::thread::sleep(std::time::Duration::from_millis(if t0.elapsed().as_millis() < 200 { 1 } else { 20 }));
+      }
+      Err(_) => break Fresh::Failed,
+    }
+  };
+  let _ = std::fs::remove_file(&out_path);
+  res
+}
+
+/// One request alone in a fresh process, with a deadline (None: no answer in time, or the process failed).
+fn fresh_process_answer(op: &[i64], limit: std::time::Duration) -> Option<String> {
+  match run_fresh(op, limit) {
+    Fresh::Answered(v) if v.len() == 1 => Some(v[0].clone()),
+    _ => None,
+  }
+}
+
+/// A reference request did not return in this (used) process. If the same request alone in a fresh process answers, the
+/// earlier requests of this process are what blocks it: a violation. Otherwise the request never returns on its own,
+/// which is not this property's business: the rest of the worker's cases are skipped and the run is inconclusive.
+fn report_blocked_reference(env: &Env, out: &mut Out, sub: &str, case: &Case, op: &[i64], limit: std::time::Duration) {
+  BLOCKED.store(true, Ordering::SeqCst);
+  match fresh_process_answer(op, limit) {
+    Some(a) => { out.fail(env, Viol { sub: sub.into(), kind: "request_blocked_in_a_used_process".into(), case: Case::ints(op), key: key(&[("op", op[0]), ("p1", op[1]), ("p2", op[2])]), desc: format!("{} in a process that served other requests before (memo emptied, lock poison cleared through the hooks, new thread)", op_desc(op)), expected: format!("{} (alone in a fresh process)", a), got: format!("no answer within {:?}", limit) }); }
+    None => {
+      out.skip("request_never_returns_even_in_a_fresh_process");
+      out.note(format!("INCONCLUSIVE: {} does not return within {:?} even alone in a fresh process; remaining cases of this worker skipped", op_desc(op), limit));
+      let _ = case;
+    }
+  }
+}
+
+/// Set once a request was found blocked: the stuck thread may hold a library lock for ever, so the rest of this
+/// worker's C10 cases are skipped (counted) instead of hanging the worker until the watchdog kills it.
+static BLOCKED: std::sync::atomic::AtomicBool = std::sync::atomic::AtomicBool::new(false);
+
+/// "No request completed for this long" counts as blocked: at least one minute plus 300 times what the very
+/// same requests took one by one from a pristine state a moment earlier (so machine load cannot produce it).
+fn stall_limit(reference: std::time::Duration) -> std::time::Duration {
+  let base = std::env::var("VERIF_C10_STALL_S").ok().and_then(|v| v.parse::<u64>().ok()).unwrap_or(60);
+  std::time::Duration::from_secs(base) + reference * 300
 }
 
 fn clean_state() {
@@ -462,13 +554,29 @@ impl C10 {
     if ops.is_empty() {
       return;
     }
+    if BLOCKED.load(Ordering::SeqCst) {
+      out.skip("skipped_after_a_blocked_request");
+      return;
+    }
     out.eval(sub);
+    let t_ref = std::time::Instant::now();
     let mut refs: Vec<String> = Vec::with_capacity(ops.len());
     let mut memo: BTreeMap<Vec<i64>, String> = BTreeMap::new();
     for op in &ops {
-      let r = memo.entry(op.clone()).or_insert_with(|| pristine_answer(op));
-      refs.push(r.clone());
+      if !memo.contains_key(op) {
+        match pristine_answer(op) {
+          Ok(a) => {
+            memo.insert(op.clone(), a);
+          }
+          Err(limit) => {
+            report_blocked_reference(env, out, sub, case, op, limit);
+            return;
+          }
+        }
+      }
+      refs.push(memo[op].clone());
     }
+    let t_ref = t_ref.elapsed();
     let nt = classify(out, &ops, &refs);
     if nt {
       out.nontrivial(sub, &case.a);
@@ -484,7 +592,30 @@ impl C10 {
     }
     clean_state();
     let ops_t = ops.clone();
-    let got_all: Vec<String> = std::thread::spawn(move || ops_t.iter().map(|o| answer(o)).collect()).join().unwrap_or_default();
+    let (tx, rx) = std::sync::mpsc::channel::<String>();
+    let handle = std::thread::spawn(move || {
+      for o in ops_t.iter() {
+        if tx.send(answer(o)).is_err() {
+          break;
+        }
+      }
+    });
+    let limit = stall_limit(t_ref);
+    let mut got_all: Vec<String> = Vec::with_capacity(ops.len());
+    while got_all.len() < ops.len() {
+      match rx.recv_timeout(limit) {
+        Ok(a) => got_all.push(a),
+        Err(std::sync::mpsc::RecvTimeoutError::Disconnected) => break,
+        Err(std::sync::mpsc::RecvTimeoutError::Timeout) => {
+          let pos = got_all.len();
+          BLOCKED.store(true, Ordering::SeqCst);
+          let hist: Vec<String> = ops[..=pos].iter().map(|o| op_desc(o)).collect();
+          out.fail(env, Viol { sub: sub.into(), kind: "request_blocked_by_history".into(), case: case.clone(), key: key(&[("pos", pos as i64), ("op", ops[pos][0]), ("p1", ops[pos][1]), ("p2", ops[pos][2])]), desc: format!("history {:?}", hist), expected: format!("{} -> {} (answered in {:?} from a pristine state)", op_desc(&ops[pos]), refs[pos], t_ref), got: format!("no answer within {:?} after the earlier requests of the history", limit) });
+          return;
+        }
+      }
+    }
+    let _ = handle.join();
     for (pos, op) in ops.iter().enumerate() {
       let got = got_all.get(pos).cloned().unwrap_or_else(|| "MISSING".to_string());
       if got != refs[pos] {
@@ -510,29 +641,30 @@ impl C10 {
       return;
     }
     out.eval("fresh");
-    let exe = std::env::current_exe().unwrap();
-    let run = |a: &[i64]| -> Option<Vec<String>> {
-      let arg = a.iter().map(|x| x.to_string()).collect::<Vec<_>>().join(",");
-      let o = std::process::Command::new(&exe).arg("C10").arg("--aux").arg("history").arg(arg).output().ok()?;
-      if !o.status.success() {
-        return None;
-      }
-      Some(String::from_utf8_lossy(&o.stdout).lines().map(|l| l.to_string()).collect())
-    };
-    let whole = run(&case.a);
+    if BLOCKED.load(Ordering::SeqCst) {
+      out.skip("skipped_after_a_blocked_request");
+      return;
+    }
+    let single_limit = stall_limit(std::time::Duration::from_secs(0));
     thread_local! {
       static ALONE: std::cell::RefCell<HashMap<Vec<i64>, String>> = std::cell::RefCell::new(HashMap::new());
     }
     let mut alone: Vec<String> = vec![];
+    let t_alone = std::time::Instant::now();
     for op in &ops {
       if let Some(a) = ALONE.with(|m| m.borrow().get(op).cloned()) {
         alone.push(a);
         continue;
       }
-      match run(op) {
-        Some(v) if v.len() == 1 => {
+      match run_fresh(op, single_limit) {
+        Fresh::Answered(v) if v.len() == 1 => {
           ALONE.with(|m| m.borrow_mut().insert(op.clone(), v[0].clone()));
           alone.push(v[0].clone())
+        }
+        Fresh::TimedOut => {
+          out.skip("request_never_returns_even_in_a_fresh_process");
+          out.note(format!("INCONCLUSIVE: {} does not return within {:?} alone in a fresh process", op_desc(op), single_limit));
+          return;
         }
         _ => {
           out.skip("fresh_process_failed");
@@ -540,6 +672,22 @@ impl C10 {
         }
       }
     }
+    // the whole history in one fresh process: a deadline of 1 min + 300x what its requests took in processes of their own
+    let whole_limit = stall_limit(t_alone.elapsed());
+    let whole = match run_fresh(&case.a, whole_limit) {
+      Fresh::Answered(v) => Some(v),
+      Fresh::Failed => None,
+      Fresh::TimedOut => {
+        // no shrinking of blocked histories: every shrink step would cost the whole deadline again
+        BLOCKED.store(true, Ordering::SeqCst);
+        let nt = classify(out, &ops, &alone);
+        if nt {
+          out.nontrivial("fresh", &case.a);
+        }
+        out.fail(env, Viol { sub: "fresh".into(), kind: "history_blocks_in_a_fresh_process".into(), case: case.clone(), key: key(&[("op", ops[0][0]), ("p1", ops[0][1]), ("p2", ops[0][2]), ("n", ops.len() as i64)]), desc: format!("history {:?} in one fresh process", ops.iter().map(|o| op_desc(o)).collect::<Vec<_>>()), expected: format!("{:?} (each alone in a fresh process)", alone), got: format!("the process did not finish within {:?}", whole_limit) });
+        return;
+      }
+    };
     let nt = classify(out, &ops, &alone);
     if nt {
       out.nontrivial("fresh", &case.a);
@@ -564,35 +712,71 @@ impl C10 {
     if ops.is_empty() {
       return;
     }
+    if BLOCKED.load(Ordering::SeqCst) {
+      out.skip("skipped_after_a_blocked_request");
+      return;
+    }
     out.eval("threads");
+    let t_ref = std::time::Instant::now();
     let mut memo: BTreeMap<Vec<i64>, String> = BTreeMap::new();
     let mut refs: Vec<String> = vec![];
     for op in &ops {
-      let r = memo.entry(op.clone()).or_insert_with(|| {
-        clean_state();
-        answer(op)
-      });
-      refs.push(r.clone());
+      if !memo.contains_key(op) {
+        match pristine_answer(op) {
+          Ok(a) => {
+            memo.insert(op.clone(), a);
+          }
+          Err(limit) => {
+            report_blocked_reference(env, out, "threads", case, op, limit);
+            return;
+          }
+        }
+      }
+      refs.push(memo[op].clone());
     }
+    // slowest plausible single request: the whole reference pass (an upper bound for any one of them)
+    let t_ref = t_ref.elapsed();
     clean_state();
     out.nontrivial("threads", &case.a);
     out.class_n("threaded_requests", ops.len() as u64);
     out.sample("threads", true, || json!({"threads": 16, "requests": ops.len(), "first_requests": ops.iter().take(4).map(|o| op_desc(o)).collect::<Vec<_>>()}));
-    let next = AtomicUsize::new(0);
-    let got: Mutex<Vec<Option<String>>> = Mutex::new(vec![None; ops.len()]);
-    std::thread::scope(|s| {
-      for _ in 0..16 {
-        s.spawn(|| loop {
+    let next = std::sync::Arc::new(AtomicUsize::new(0));
+    let done = std::sync::Arc::new(AtomicUsize::new(0));
+    let alive = std::sync::Arc::new(AtomicUsize::new(16));
+    let got: std::sync::Arc<Mutex<Vec<Option<String>>>> = std::sync::Arc::new(Mutex::new(vec![None; ops.len()]));
+    let shared_ops = std::sync::Arc::new(ops.clone());
+    for _ in 0..16 {
+      let (next, done, alive, got, shared_ops) = (next.clone(), done.clone(), alive.clone(), got.clone(), shared_ops.clone());
+      std::thread::spawn(move || {
+        loop {
           let i = next.fetch_add(1, Ordering::SeqCst);
-          if i >= ops.len() {
+          if i >= shared_ops.len() {
             break;
           }
-          let a = answer(&ops[i]);
-          got.lock().unwrap()[i] = Some(a);
-        });
+          let a = answer(&shared_ops[i]);
+          got.lock().unwrap_or_else(|e| e.into_inner())[i] = Some(a);
+          done.fetch_add(1, Ordering::SeqCst);
+        }
+        alive.fetch_sub(1, Ordering::SeqCst);
+      });
+    }
+    // wait for the 16 threads; "no request completed for stall_limit" means they block one another
+    let limit = stall_limit(t_ref);
+    let mut last = (done.load(Ordering::SeqCst), std::time::Instant::now());
+    while alive.load(Ordering::SeqCst) > 0 {
+      std::thread::sleep(std::time::Duration::from_millis(2));
+      let d = done.load(Ordering::SeqCst);
+      if d != last.0 {
+        last = (d, std::time::Instant::now());
+      } else if last.1.elapsed() > limit {
+        BLOCKED.store(true, Ordering::SeqCst);
+        let pending: Vec<usize> = got.lock().unwrap_or_else(|e| e.into_inner()).iter().enumerate().filter(|(i, g)| g.is_none() && *i < next.load(Ordering::SeqCst)).map(|(i, _)| i).take(16).collect();
+        let first = pending.first().copied().unwrap_or(0).min(ops.len() - 1);
+        out.fail(env, Viol { sub: "threads".into(), kind: "requests_block_one_another".into(), case: case.clone(), key: key(&[("op", ops[first][0]), ("p1", ops[first][1]), ("p2", ops[first][2])]), desc: format!("{} concurrent requests on 16 threads; in flight: {:?}", ops.len(), pending.iter().map(|&i| op_desc(&ops[i])).collect::<Vec<_>>()), expected: format!("all answered (one by one they took {:?} in total)", t_ref), got: format!("{} of {} answered, then none for {:?}", d, ops.len(), limit) });
+        return;
       }
-    });
-    let got = got.into_inner().unwrap();
+    }
+    let got: Vec<Option<String>> = got.lock().unwrap_or_else(|e| e.into_inner()).clone();
     for (pos, g) in got.iter().enumerate() {
       let g = g.clone().unwrap_or_else(|| "MISSING".into());
       if g != refs[pos] {
@@ -610,7 +794,7 @@ impl Prop for C10 {
   }
   fn meta(&self, _env: &Env) -> Meta {
     Meta {
-      rule: "Requests: LunarMonth::from_ym, LunarDay::new (+3 getter orders over the per-value memos), SolarDay->lunar, SixtyCycleDay, LunarFestival::from_index, eight characters, ChildLimit, LunarYear month list, LunarMonth::next; each answer is a canonical string of all observable fields, a refusal (Err or panic) is REFUSED. Generators: (1) `collide`: both orders of every pair of valid (year, month) requests whose undelimited concatenation year||month or month||year coincides (complete), and `collide_arith`: both orders of pairs that coincide under 25 arithmetic key functions (year*k+month, year*k+|month| for k in 10..64, leap twins, xor/shift packings), up to 400/4000 pairs per function; (2) `history`: proptest vec(op, 1..60), 40% of years from a 30-year pool of neighbouring/colliding years, ~22% injected refused requests (month 0/13/-13, leap month the year lacks, day 0/31/32, year -2/-1/10000, child limits ending outside the supported range or in the 1582 gap); (3) `threads`: proptest-generated request lists issued by 16 threads from a shared queue; (4) `fresh`: proptest histories executed in a fresh process and each request alone in its own fresh process (no hooks). Half of the histories are clusters (all requests moved into the three years around one base year). Requests also cover solar terms incl. year-carrying indices, day->term, Julian date -> day/instant/weekday, civil day arithmetic, civil month lists, sexagenary months, and single requests that internally compare 'views read first' with 'not read' (reported as ORDER-DEPENDENT). Oracle: answer inside the history (run in its own fresh thread) == answer of the same request from a pristine state (guarded hooks empty the memo and clear lock poison; a brand-new thread gives pristine thread-locals) == answer in a fresh process. Non-trivial: the history contains two lunar-month requests with equal concatenated digits, a month and its leap twin, or a refusal followed by at least one valid request; every threaded round is non-trivial. Distinct = distinct op sequences.".into(),
+      rule: "Requests: LunarMonth::from_ym, LunarDay::new (+3 getter orders over the per-value memos), SolarDay->lunar, SixtyCycleDay, LunarFestival::from_index, eight characters, ChildLimit, LunarYear month list, LunarMonth::next; each answer is a canonical string of all observable fields, a refusal (Err or panic) is REFUSED. Generators: (1) `collide`: both orders of every pair of valid (year, month) requests whose undelimited concatenation year||month or month||year coincides (complete), and `collide_arith`: both orders of pairs that coincide under 25 arithmetic key functions (year*k+month, year*k+|month| for k in 10..64, leap twins, xor/shift packings), up to 400/4000 pairs per function; (2) `history`: proptest vec(op, 1..60), 40% of years from a 30-year pool of neighbouring/colliding years, ~22% injected refused requests (month 0/13/-13, leap month the year lacks, day 0/31/32, year -2/-1/10000, child limits ending outside the supported range or in the 1582 gap); (3) `threads`: proptest-generated request lists issued by 16 threads from a shared queue (a round in which no request completes for 1 min + 300x the one-by-one time is reported as blocked); (4) `fresh`: proptest histories executed in a fresh process and each request alone in its own fresh process (no hooks). Half of the histories are clusters (all requests moved into the three years around one base year). Requests also cover solar terms incl. year-carrying indices, day->term, Julian date -> day/instant/weekday, civil day arithmetic, civil month lists, sexagenary months, and single requests that internally compare 'views read first' with 'not read' (reported as ORDER-DEPENDENT). Oracle: answer inside the history (run in its own fresh thread) == answer of the same request from a pristine state (guarded hooks empty the memo and clear lock poison; a brand-new thread gives pristine thread-locals) == answer in a fresh process; a history whose next request does not return within 1 min + 300x its pristine time is reported as blocked. Non-trivial: the history contains two lunar-month requests with equal concatenated digits, a month and its leap twin, or a refusal followed by at least one valid request; every threaded round is non-trivial. Distinct = distinct op sequences.".into(),
       assumptions: vec![
         "The in-process oracle trusts the verif-hooks reset/clear_poison accessors to restore a pristine state; the `fresh` sub-check does not use them and cross-checks this on sampled histories".into(),
         "Thread interleavings are whatever the OS scheduler produces in this run (sampled, not enumerated); a threaded violation may not reproduce from its replay file".into(),
